@@ -306,6 +306,8 @@ class Interp:
                 continue
             if attr in ci.class_assigns:
                 return self.ev(ci.class_assigns[attr], {"__module__": ci.module})
+            if attr in ci.fields and ci.fields[attr].value is not None and self._is_class_constant(c, ci.fields[attr]):
+                return self.ev(ci.fields[attr].value, {"__module__": ci.module})
             if attr in ci.methods:
                 fi = ci.methods[attr]
                 return VFun(fi.node, {"__module__": fi.module}, fi, recv=VCls(cls))
@@ -313,6 +315,39 @@ class Interp:
             if nested in self.pm.classes:
                 return VCls(nested)
         return None
+
+    def _is_class_constant(self, cls: str, decl) -> bool:
+        """an annotated class-level assignment that is a constant of the class rather than a per-instance field:
+        ClassVar[...] anywhere, or any annotated assignment in a class that is not a pydantic model / dataclass /
+        NamedTuple (there the annotation declares an instance field with a default)"""
+        if "ClassVar" in src(decl.annotation):
+            return True
+        if self.pm.is_pydantic(cls):
+            return False
+        ci = self.pm.classes[cls]
+        if any("dataclass" in src(d) for d in ci.node.decorator_list):
+            return False
+        if any(b.split(".")[-1] in ("NamedTuple", "TypedDict", "Enum") for b in self.pm.mro(cls)):
+            return False
+        return True
+
+    def _assigned_on_instance(self, cls: str, attr: str) -> bool:
+        """some method of the class (or a base) stores to self.<attr>"""
+        key = (cls, attr)
+        cache = self.__dict__.setdefault("_inst_assign_cache", {})
+        if key not in cache:
+            hit = False
+            for c in self.pm.mro(cls):
+                ci = self.pm.classes.get(c)
+                if ci is None:
+                    continue
+                for fi in ci.methods.values():
+                    for x in ast.walk(fi.node):
+                        if isinstance(x, ast.Attribute) and x.attr == attr and isinstance(x.ctx, ast.Store) \
+                                and isinstance(x.value, ast.Name) and x.value.id in ("self", "cls"):
+                            hit = True
+            cache[key] = hit
+        return cache[key]
 
     def ev_Attribute(self, n, env):
         base = self.ev(n.value, env)
@@ -325,6 +360,12 @@ class Interp:
         if isinstance(base, VObj):
             if n.attr in base.fields:
                 return base.fields[n.attr]
+            decl = self.pm.field_decl(base.cls, n.attr)
+            if decl is not None and decl.value is not None and not self._assigned_on_instance(base.cls, n.attr):
+                for c in self.pm.mro(base.cls):
+                    ci = self.pm.classes.get(c)
+                    if ci is not None and ci.fields.get(n.attr) is decl and self._is_class_constant(c, decl):
+                        return self.ev(decl.value, {"__module__": ci.module})
             ann = self.pm.field_ann(base.cls, n.attr)
             if ann:
                 return self.from_ann(ann, s)
@@ -354,6 +395,12 @@ class Interp:
             if n.attr in ("height", "width") and "DataFrame" in base.typ:
                 return VNum("int", s)
             return VOpq("?attr", s)
+        if isinstance(base, VOpq) and base.typ == "ext:re" and n.attr.isupper():
+            import re as _re
+            if isinstance(getattr(_re, n.attr, None), int):
+                return VConst(getattr(_re, n.attr))
+        if isinstance(base, VConst) and type(base.v).__name__ == "Pattern" and n.attr in ("pattern", "flags"):
+            return pyconst(getattr(base.v, n.attr))
         if isinstance(base, VDict) and n.attr in ("items", "keys", "values", "get", "update", "copy"):
             return VOpq("?dictmethod")
         return VOpq("?attr", s)
@@ -529,16 +576,48 @@ class Interp:
         return isinstance(v, VTuple) and v.is_list and bool(v.items) and all(isinstance(x, VStr) for x in v.items)
 
     def ev_List(self, n, env):
-        items = []
+        # a display is a concatenation of segments: plain elements and spliced (*x) sequences.
+        # All-concrete -> VTuple; otherwise the segments are joined in the list-of-strings domain
+        # (VList) or, for sequences of objects, in the homogeneous-sequence domain (VSeqObj).
+        segs: list = []          # ('one', value, node) | ('many', value, node)
         for e in n.elts:
             if isinstance(e, ast.Starred):
                 v = self.ev(e.value, env)
                 if isinstance(v, VTuple):
-                    items.extend(v.items)
-                    continue
-                return VOpq("?starred-list")
-            items.append(self.ev(e, env))
-        return VTuple(items, is_list=isinstance(n, ast.List))
+                    segs.extend(("one", x, e.value) for x in v.items)
+                else:
+                    segs.append(("many", v, e.value))
+            else:
+                segs.append(("one", self.ev(e, env), e))
+        return self.concat_segments(segs, n, is_list=isinstance(n, ast.List))
+
+    def concat_segments(self, segs, n, is_list: bool = True):
+        """value of a sequence assembled from single elements ('one', v, node) and spliced sequences ('many', v, node)"""
+        segs = [x for (k, v, nd) in segs for x in ([("one", i, nd) for i in v.items] if k == "many" and isinstance(v, VTuple) else [(k, v, nd)])]
+        if all(k == "one" for k, _, _ in segs):
+            return VTuple([v for _, v, _ in segs], is_list=is_list)
+        many = [v for k, v, _ in segs if k == "many"]
+        if all(isinstance(v, VSeqObj) and not isinstance(v.elem, (VStr, VNum)) for v in many) and \
+                not any(k == "one" and isinstance(v, VStr) for k, v, _ in segs):
+            elems = [v.elem if k == "many" else v for k, v, _ in segs]
+            return VSeqObj(self._join_all(elems), many[0].key)
+        def strseq(v) -> bool:
+            if isinstance(v, (VList, VSeqObj)):
+                return True
+            if isinstance(v, VOpq):
+                m = SEQ_RE.match(strip_optional(v.typ.replace(" ", ""))[0] or "")
+                return bool(m and m.group(1) == "str")
+            return False
+        if all(strseq(v) for v in many):
+            parts = []
+            for k, v, node in segs:
+                if k == "one":
+                    parts.append(self.to_shape(v, src(node)))
+                    parts.append(EB())
+                else:
+                    parts.append(self.list_shape(v, src(node)))
+            return VList(seq(*parts))
+        return VOpq("?starred-list", src(n))
 
     ev_Tuple = ev_List
 
@@ -562,6 +641,9 @@ class Interp:
 
     def ev_Subscript(self, n, env):
         base = self.ev(n.value, env)
+        rec = self.record_items(base)
+        if rec is not None:
+            base = VTuple(rec, is_list=False)
         if isinstance(n.slice, ast.Slice):
             bc = constof(base)
             if bc is not NOC:
@@ -616,6 +698,15 @@ class Interp:
                 return self.from_ann(inner, src(n))
             return VOpq("?sub", src(n))
         return VOpq("?sub", src(n))
+
+    def record_items(self, v):
+        """field values, in declaration order, of a NamedTuple-like record object (None if v is not one)"""
+        if isinstance(v, VObj) and v.cls in self.pm.classes and \
+                any(b.split(".")[-1] == "NamedTuple" for b in self.pm.mro(v.cls)):
+            names = list(self.pm.all_fields(v.cls))
+            if names and all(k in v.fields for k in names):
+                return [v.fields[k] for k in names]
+        return None
 
     def _join_all(self, vals):
         if len(vals) > 8 and all(isinstance(v, VStr) for v in vals):
@@ -690,6 +781,8 @@ class Interp:
                     continue
                 if last:
                     if kind == "dict":
+                        if maybe:
+                            return VOpq("?dictcomp-undecided-filter", src(n))
                         k = constof(self.ev(elt[0], env2))
                         if k is NOC:
                             return VOpq("?dictcomp")
@@ -756,6 +849,9 @@ class Interp:
         if isinstance(target, ast.Name):
             env[target.id] = val
         elif isinstance(target, (ast.Tuple, ast.List)):
+            rec = self.record_items(val)
+            if rec is not None:
+                val = VTuple(rec, is_list=False)
             if isinstance(val, VTuple) and len(val.items) == len(target.elts):
                 for t, v in zip(target.elts, val.items):
                     self.bind(t, v, env)
